@@ -99,6 +99,13 @@ func checkApplyOpts(doc *JV, ops []Op, optmask int) {
 	neg := vx.Bool("negidx")
 	docB := render(doc)
 	patchB := renderPatch(ops)
+	if vx.ParamOr("pad", 0) == 1 {
+		// the same document and operation values with insignificant whitespace everywhere
+		docB = renderWS(doc)
+		padded := make([]Op, len(ops))
+		copy(padded, ops)
+		patchB = renderPatchWS(padded)
+	}
 	vx.Note("doc", docB)
 	vx.Note("patch", patchB)
 
